@@ -188,17 +188,26 @@ impl GitVcs {
 
     /// Get all tags pointing to a commit hash
     fn get_all_tags_from_commit_hash(&self, commit_hash: &str) -> Result<Vec<String>> {
-        // `git tag --points-at` succeeds with empty output when the commit has no tags,
-        // so an error here is a real git failure and must not be mistaken for "no tags"
-        // --no-column: with `column.ui = always` (or `column.tag`) in the user's git configuration the
-        // tag names of one commit would otherwise arrive on a single line
-        let tags_output =
-            self.run_git_command(&["tag", "--no-column", "--points-at", commit_hash])?;
-        Ok(tags_output
-            .lines()
-            .map(|line| line.trim().to_string())
-            .filter(|tag| !tag.is_empty())
-            .collect())
+        // `git show-ref --tags -d` lists every tag ref and, for an annotated tag, a second `<ref>^{}` line
+        // naming the object the tag finally refers to - also through a tag of a tag, which
+        // `git tag --points-at` (it follows one level only) does not report for the commit.
+        // Only asked for commits that carry a tag, so an error here is a real git failure and must not
+        // be mistaken for "no tags". The output does not depend on `column.ui` / `column.tag`.
+        let refs_output = self.run_git_command(&["show-ref", "--tags", "-d"])?;
+        let mut tags: Vec<String> = Vec::new();
+        for line in refs_output.lines() {
+            let Some((object, refname)) = line.trim().split_once(' ') else {
+                continue;
+            };
+            let Some(name) = refname.strip_prefix("refs/tags/") else {
+                continue;
+            };
+            let name = name.strip_suffix("^{}").unwrap_or(name);
+            if object == commit_hash && !name.is_empty() && !tags.iter().any(|tag| tag == name) {
+                tags.push(name.to_string());
+            }
+        }
+        Ok(tags)
     }
 
     fn calculate_distance(&self, tag: &str) -> Result<u32> {
